@@ -303,10 +303,6 @@ def fteik2d(slow, dz, dx, zsrc, xsrc, nsweep=2, grad=False):
     zsa = zsrc / dz
     xsa = xsrc / dx
 
-    # Try to handle edges simply for source due to precision
-    zsa = zsa - eps if zsa >= nz else zsa
-    xsa = xsa - eps if xsa >= nx else xsa
-
     # Grid points to initialize source
     zsi = min(int(zsa), nz - 1)
     xsi = min(int(xsa), nx - 1)
@@ -383,32 +379,35 @@ def fteik2d(slow, dz, dx, zsrc, xsrc, nsweep=2, grad=False):
             tauv = td[j] - vzero * np.abs(j - xsa) * dx
             tauev = td[j - 1] - vzero * np.abs(j - xsa - 1.0) * dx
 
-            dzi = 1.0 / (dzd * dz)
-            dz2i = dzi / (dzd * dz)
-            taue = tt[zsi + 1, j - 1] - t_ana(zsi + 1, j - 1, dz, dx, zsa, xsa, vzero)
-            t0c, tzc, txc = t_anad(zsi + 1, j, dz, dx, zsa, xsa, vzero)
-            tt[zsi + 1, j] = delta(
-                tt[zsi + 1, j],
-                tauv,
-                taue,
-                tauev,
-                t0c,
-                tzc,
-                txc,
-                dzi,
-                dxi,
-                dz2i,
-                dx2i,
-                vzero,
-                vref,
-                1,
-                1,
-            )
-            if grad:
-                ttsgn[zsi + 1, j, 0] = 1
-                ttsgn[zsi + 1, j, 1] = 1
+            if dzd > 0.0 and tt[zsi + 1, j - 1] < Big:
+                dzi = 1.0 / (dzd * dz)
+                dz2i = dzi / (dzd * dz)
+                taue = tt[zsi + 1, j - 1] - t_ana(
+                    zsi + 1, j - 1, dz, dx, zsa, xsa, vzero
+                )
+                t0c, tzc, txc = t_anad(zsi + 1, j, dz, dx, zsa, xsa, vzero)
+                tt[zsi + 1, j] = delta(
+                    tt[zsi + 1, j],
+                    tauv,
+                    taue,
+                    tauev,
+                    t0c,
+                    tzc,
+                    txc,
+                    dzi,
+                    dxi,
+                    dz2i,
+                    dx2i,
+                    vzero,
+                    vref,
+                    1,
+                    1,
+                )
+                if grad:
+                    ttsgn[zsi + 1, j, 0] = 1
+                    ttsgn[zsi + 1, j, 1] = 1
 
-            if dzu > 0.0:
+            if dzu > 0.0 and tt[zsi, j - 1] < Big:
                 dzi = 1.0 / (dzu * dz)
                 dz2i = dzi / (dzu * dz)
                 taue = tt[zsi, j - 1] - t_ana(zsi, j - 1, dz, dx, zsa, xsa, vzero)
@@ -441,32 +440,35 @@ def fteik2d(slow, dz, dx, zsrc, xsrc, nsweep=2, grad=False):
             tauv = td[j] - vzero * np.abs(j - xsa) * dx
             tauev = td[j + 1] - vzero * np.abs(j - xsa + 1.0) * dx
 
-            dzi = 1.0 / (dzd * dz)
-            dz2i = dzi / (dzd * dz)
-            taue = tt[zsi + 1, j + 1] - t_ana(zsi + 1, j + 1, dz, dx, zsa, xsa, vzero)
-            t0c, tzc, txc = t_anad(zsi + 1, j, dz, dx, zsa, xsa, vzero)
-            tt[zsi + 1, j] = delta(
-                tt[zsi + 1, j],
-                tauv,
-                taue,
-                tauev,
-                t0c,
-                tzc,
-                txc,
-                dzi,
-                dxi,
-                dz2i,
-                dx2i,
-                vzero,
-                vref,
-                1,
-                -1,
-            )
-            if grad:
-                ttsgn[zsi + 1, j, 0] = 1
-                ttsgn[zsi + 1, j, 1] = -1
+            if dzd > 0.0 and tt[zsi + 1, j + 1] < Big:
+                dzi = 1.0 / (dzd * dz)
+                dz2i = dzi / (dzd * dz)
+                taue = tt[zsi + 1, j + 1] - t_ana(
+                    zsi + 1, j + 1, dz, dx, zsa, xsa, vzero
+                )
+                t0c, tzc, txc = t_anad(zsi + 1, j, dz, dx, zsa, xsa, vzero)
+                tt[zsi + 1, j] = delta(
+                    tt[zsi + 1, j],
+                    tauv,
+                    taue,
+                    tauev,
+                    t0c,
+                    tzc,
+                    txc,
+                    dzi,
+                    dxi,
+                    dz2i,
+                    dx2i,
+                    vzero,
+                    vref,
+                    1,
+                    -1,
+                )
+                if grad:
+                    ttsgn[zsi + 1, j, 0] = 1
+                    ttsgn[zsi + 1, j, 1] = -1
 
-            if dzu > 0.0:
+            if dzu > 0.0 and tt[zsi + 1, j + 1] < Big:
                 dzi = 1.0 / (dzu * dz)
                 dz2i = dzi / (dzu * dz)
                 taue = tt[zsi + 1, j + 1] - t_ana(
@@ -504,32 +506,35 @@ def fteik2d(slow, dz, dx, zsrc, xsrc, nsweep=2, grad=False):
             taue = td[i] - vzero * np.abs(i - zsa) * dz
             tauev = td[i - 1] - vzero * np.abs(i - zsa - 1.0) * dz
 
-            dxi = 1.0 / (dxe * dx)
-            dx2i = dxi / (dxe * dx)
-            tauv = tt[i - 1, xsi + 1] - t_ana(i - 1, xsi + 1, dz, dx, zsa, xsa, vzero)
-            t0c, tzc, txc = t_anad(i, xsi + 1, dz, dx, zsa, xsa, vzero)
-            tt[i, xsi + 1] = delta(
-                tt[i, xsi + 1],
-                tauv,
-                taue,
-                tauev,
-                t0c,
-                tzc,
-                txc,
-                dzi,
-                dxi,
-                dz2i,
-                dx2i,
-                vzero,
-                vref,
-                1,
-                1,
-            )
-            if grad:
-                ttsgn[i, xsi + 1, 0] = 1
-                ttsgn[i, xsi + 1, 1] = 1
+            if dxe > 0.0 and tt[i - 1, xsi + 1] < Big:
+                dxi = 1.0 / (dxe * dx)
+                dx2i = dxi / (dxe * dx)
+                tauv = tt[i - 1, xsi + 1] - t_ana(
+                    i - 1, xsi + 1, dz, dx, zsa, xsa, vzero
+                )
+                t0c, tzc, txc = t_anad(i, xsi + 1, dz, dx, zsa, xsa, vzero)
+                tt[i, xsi + 1] = delta(
+                    tt[i, xsi + 1],
+                    tauv,
+                    taue,
+                    tauev,
+                    t0c,
+                    tzc,
+                    txc,
+                    dzi,
+                    dxi,
+                    dz2i,
+                    dx2i,
+                    vzero,
+                    vref,
+                    1,
+                    1,
+                )
+                if grad:
+                    ttsgn[i, xsi + 1, 0] = 1
+                    ttsgn[i, xsi + 1, 1] = 1
 
-            if dxw > 0.0:
+            if dxw > 0.0 and tt[i - 1, xsi] < Big:
                 dxi = 1.0 / (dxw * dx)
                 dx2i = dxi / (dxw * dx)
                 tauv = tt[i - 1, xsi] - t_ana(i - 1, xsi, dz, dx, zsa, xsa, vzero)
@@ -562,32 +567,35 @@ def fteik2d(slow, dz, dx, zsrc, xsrc, nsweep=2, grad=False):
             taue = td[i] - vzero * np.abs(i - zsa) * dz
             tauev = td[i + 1] - vzero * np.abs(i - zsa + 1.0) * dz
 
-            dxi = 1.0 / (dxe * dx)
-            dx2i = dxi / (dxe * dx)
-            tauv = tt[i + 1, xsi + 1] - t_ana(i + 1, xsi + 1, dz, dx, zsa, xsa, vzero)
-            t0c, tzc, txc = t_anad(i, xsi + 1, dz, dx, zsa, xsa, vzero)
-            tt[i, xsi + 1] = delta(
-                tt[i, xsi + 1],
-                tauv,
-                taue,
-                tauev,
-                t0c,
-                tzc,
-                txc,
-                dzi,
-                dxi,
-                dz2i,
-                dx2i,
-                vzero,
-                vref,
-                -1,
-                1,
-            )
-            if grad:
-                ttsgn[i, xsi + 1, 0] = -1
-                ttsgn[i, xsi + 1, 1] = 1
+            if dxe > 0.0 and tt[i + 1, xsi + 1] < Big:
+                dxi = 1.0 / (dxe * dx)
+                dx2i = dxi / (dxe * dx)
+                tauv = tt[i + 1, xsi + 1] - t_ana(
+                    i + 1, xsi + 1, dz, dx, zsa, xsa, vzero
+                )
+                t0c, tzc, txc = t_anad(i, xsi + 1, dz, dx, zsa, xsa, vzero)
+                tt[i, xsi + 1] = delta(
+                    tt[i, xsi + 1],
+                    tauv,
+                    taue,
+                    tauev,
+                    t0c,
+                    tzc,
+                    txc,
+                    dzi,
+                    dxi,
+                    dz2i,
+                    dx2i,
+                    vzero,
+                    vref,
+                    -1,
+                    1,
+                )
+                if grad:
+                    ttsgn[i, xsi + 1, 0] = -1
+                    ttsgn[i, xsi + 1, 1] = 1
 
-            if dxw > 0.0:
+            if dxw > 0.0 and tt[i + 1, xsi] < Big:
                 dxi = 1.0 / (dxw * dx)
                 dx2i = dxi / (dxw * dx)
                 tauv = tt[i + 1, xsi] - t_ana(i + 1, xsi, dz, dx, zsa, xsa, vzero)
